@@ -415,6 +415,51 @@ class Sc:
         self.check_tip("after the second rebase")
         return f"rebase-after-{how}"
 
+    def tail(self):
+        """a second rewriting operation on top of whatever the template left (two operations composed)"""
+        rng = self.rng
+        op = rng.pick(["amend", "reset-recommit", "stash-pop", "amend"])
+        files = [p for p in self.files if self.r.exists(p)]
+        if not files:
+            return None
+        p = rng.pick(files)
+        if op == "amend":
+            self.edit(rng.pick(["s1", "s2", "human"]), p, where=rng.pick(["top", "bottom"]))
+            self.git("add", "-A")
+            self.mrec("stageAll")
+            if self.git("commit", "-q", "--amend", "-m", "amended (tail)") == 0:
+                self.mrec("amend")
+            else:
+                self.model_ok = False
+        elif op == "reset-recommit":
+            rc, out, _ = self.r.plain_git("rev-list", "--count", "HEAD")
+            if rc != 0 or int(out.strip() or 0) < 3:
+                return None
+            mode = rng.pick(["--soft", "--mixed"])
+            if self.git("reset", mode, "HEAD~1") == 0:
+                self.mrec("reset", n=1, soft=(mode == "--soft"))
+            else:
+                self.model_ok = False
+            self.commit("recommitted (tail)")
+        else:
+            self.edit(rng.pick(["s1", "s2"]), p, where="middle")
+            if self.git("stash") == 0:
+                self.mrec("stashPush")
+            else:
+                self.model_ok = False
+            if rng.chance(1, 2):
+                q = "upstream.txt"
+                self.edit("human", q, where="bottom")
+                self.commit("while stashed (tail)")
+            if self.git("stash", "pop") != 0:
+                self.model_ok = False
+                self.git("checkout", "-f"); self.git("stash", "drop")
+                return op + ":conflict"
+            self.mrec("stashPop", ys=self.tree_ids())
+            self.commit("after pop (tail)")
+        self.check_tip(f"after tail {op}")
+        return op
+
     def t_amend(self):
         self.base()
         self.feature_commits(1)
@@ -592,6 +637,13 @@ def run_one(args, _attempt=0):
             sc = Sc(env, seed)
             tag = fn(sc)
             fam = family(tname, sc)
+            n_first = len(sc.failures)
+            if not sc.failures and tname not in ("noop", "switch-carry", "switch-c", "checkout-m", "cherry-pick-n") and sc.rng.chance(1, 2):
+                t = sc.tail()
+                if t:
+                    tag = f"{tag}+{t}"
+                    if len(sc.failures) > n_first:
+                        fam = f"{fam}+tail-{t}"
             md = {"ok": sc.model_ok, "mops": sc.mops, "obs": sc.obs, "files": sorted(sc.mfiles)}
             return tname, tag, [(sig if sig == "human-tweak-of-ai-line-still-ai" else f"{fam}:{sig}", d)
                                 for sig, d in sc.failures], sc.log, md
